@@ -2,6 +2,7 @@ import OrdModel.Proofs.TextOutgoing
 import OrdModel.Proofs.TextSigned
 import OrdModel.Proofs.TextDecimalFixed
 import OrdModel.Theorems.C31Rune
+import OrdModel.Theorems.C31Sat
 /-!
 # C31 — text parsers are total and never accept by overflow (work stream "text")
 
